@@ -219,7 +219,13 @@ def gen():
     _emit(defs, 'gen_pa_bump_rest', pa_rest)
 
     # ---- str_to_int
-    fsi = lambda: find_function(tree, 'str_to_int')
+    def fsi():
+        # notes/C18.fix-3.diff moves the body of str_to_int into _str_to_int (the public function re-parses row by row
+        # on the error path); the arithmetic kernels are those of the body
+        try:
+            return find_function(tree, '_str_to_int')
+        except Unsupported:
+            return find_function(tree, 'str_to_int')
     def s2i_power():
         a = _one([n for n in _stmts(fsi(), ast.Assign) if len(n.targets) == 1 and src_of(n.targets[0]) == 'powers'
                   and '_build_power_array' in src_of(n.value)], 'ragged powers')
